@@ -191,6 +191,8 @@ func (rt *runtime) cmplEvaluateNodeBracketExpression(node *nodeBracketExpression
 	if err != nil {
 		panic(rt.panicTypeError("Cannot access member %q of %s", memberValue.string(), err, at(node.idx)))
 	}
+	// Reading the property may call a getter: this is the call site.
+	rt.scope.frame.offset = int(node.idx)
 	return toValue(newPropertyReference(rt, obj, memberValue.string(), false, at(node.idx)))
 }
 
@@ -272,6 +274,8 @@ func (rt *runtime) cmplEvaluateNodeDotExpression(node *nodeDotExpression) Value 
 	if err != nil {
 		panic(rt.panicTypeError("Cannot access member %q of %s", node.identifier, err, at(node.idx)))
 	}
+	// Reading the property may call a getter: this is the call site.
+	rt.scope.frame.offset = int(node.idx)
 	return toValue(newPropertyReference(rt, obj, node.identifier, false, at(node.idx)))
 }
 
